@@ -15,8 +15,8 @@ func init() {
 		Explanation: "Decides structural necessary conditions of 'no enabled log line is lost, duplicated or reordered': " +
 			"(R1) exhaustive level-filter tables: log() drops a message exactly when its level is below the threshold in force (package level if one is configured for the origin, else the global level), fastcheck never rejects what log() would emit, and AddTracer creates a context tracer (which collects lines of every level) exactly when trace is the level in force for the caller; " +
 			"(R2) in log() and ContextTracer.Submit every path past the filter performs exactly one send on the log buffer by the calling goroutine itself (direct, or the chosen case of the forced-emptying loop) - no hand-off to another goroutine, no second send - followed by the writer wake-up; " +
-			"(R3) duplicate merging: logLine.Equal holds only for lines without tracer that agree in message, file, line and level (truth table), the writer writes the held line on every path before it replaces it, resets the duplicate count with it, and writes the last held line; " +
-			"(R4) all shutdown arms of the writer drain the buffer (finalizeWriting) before returning, finalizeWriting writes every line it dequeues, Shutdown closes the signal and every exit of Shutdown - also for a second caller - has waited for the writer. " +
+			"(R3) duplicate merging: logLine.Equal holds only for lines without tracer that agree in message, file, line and level (truth table), the writer writes the held line on every path before it replaces it, resets the duplicate count with it (the repetition count is 0 whenever the held line is dropped or replaced, also at the start of every batch), and writes the last held line; " +
+			"(R4) all shutdown arms of the writer drain the buffer (finalizeWriting) before returning, finalizeWriting writes every line it dequeues, the writer is added to the shutdown wait group before its goroutine is launched (not inside it), Shutdown closes the signal and every exit of Shutdown - also for a second caller - has waited for the writer. " +
 			"(R5) lock pairing over the functions of package(s) log: " + lockRuleText + ". " +
 			"NOT decided: order under real producer interleavings, timing of the drain window.",
 		Rules: []ruleFn{c20R1, c20R2, c20R3, c20R4,
@@ -406,6 +406,7 @@ func c20R2(c *Ctx, r *Report) {
 func c20R3(c *Ctx, r *Report) {
 	const rule = "C20-R3"
 	r.SetFloor(rule, 4)
+	c20CoupledReset(c, r, rule)
 	// Equal truth table
 	if fn := c.Func("log.(*logLine).Equal"); fn == nil {
 		r.Undecided(rule, "log.(*logLine).Equal", "anchor function missing")
@@ -530,6 +531,7 @@ func c20R3(c *Ctx, r *Report) {
 
 func c20R4(c *Ctx, r *Report) {
 	const rule = "C20-R4"
+	c20WaitGroupArmed(c, r, rule)
 	r.SetFloor(rule, 5)
 	w := c.Func("log.writer")
 	if w == nil {
@@ -645,5 +647,98 @@ func c20R4(c *Ctx, r *Report) {
 				c.RequireGuards(r, rule, fnKey(m)+" / ends only after a clean writer exit", m, ret, g)
 			}
 		})
+	}
+}
+
+// c20CoupledReset: the repetition count belongs to the held line. Wherever the
+// held line becomes nil or another line, the count is reset to 0 on the same
+// edge (a line taken while none was held may keep the count, which is 0 then).
+func c20CoupledReset(c *Ctx, r *Report, rule string) {
+	fn := c.Func("log.writer")
+	if fn == nil {
+		r.Undecided(rule, "log.writer", "anchor function missing")
+		return
+	}
+	n := 0
+	for _, b := range fn.Blocks {
+		var cl, dup *ssa.Phi
+		for _, in := range b.Instrs {
+			ph, ok := in.(*ssa.Phi)
+			if !ok {
+				break
+			}
+			switch ph.Comment {
+			case "currentLine":
+				cl = ph
+			case "duplicates":
+				dup = ph
+			}
+		}
+		if cl == nil {
+			continue
+		}
+		if dup == nil {
+			// the count is not merged here although the held line is: it keeps its value on every edge
+			for i, e := range cl.Edges {
+				if e != ssa.Value(cl) {
+					n++
+					r.Bad(rule, fmt.Sprintf("log.writer / held line changes at b%d edge %d without the repetition count", b.Index, i), "the held line is replaced on an edge on which the repetition count is not reset: a stale count is reported for the next line")
+				}
+			}
+			continue
+		}
+		noneHeld := Guard{Name: "currentLine == nil", Truthy: false, Match: func(v ssa.Value) bool { return v == ssa.Value(cl) }}
+		for i, e := range cl.Edges {
+			d := dup.Edges[i]
+			if e == ssa.Value(cl) {
+				continue // held line unchanged: the count may stay or grow
+			}
+			n++
+			zero := false
+			if k, isC := constInt(d); isC && k == 0 {
+				zero = true
+			}
+			kept := d == ssa.Value(dup) && !isNilConst(e) && phiEdgeGuarded(fn, cl, i, noneHeld)
+			what := "replaced by another line"
+			if isNilConst(e) {
+				what = "dropped (nil)"
+			}
+			r.Check(zero || kept, rule, fmt.Sprintf("log.writer / repetition count reset where the held line is %s #%d", what, n),
+				"the count is 0 on this edge (reset, or no line was held before)",
+				"the held line is "+what+" but the repetition count keeps its old value: the next line is written claiming repetitions that never happened", c.pathString([]*ssa.BasicBlock{b.Preds[i], b})...)
+		}
+	}
+	if n == 0 {
+		r.Undecided(rule, "log.writer / held line", "no merge point of the held line found")
+	}
+}
+
+// c20WaitGroupArmed: Add happens-before the launch, so a Shutdown that follows Start cannot see a zero counter.
+func c20WaitGroupArmed(c *Ctx, r *Report, rule string) {
+	isWG := func(method string) func(ssa.Instruction) bool {
+		return func(in ssa.Instruction) bool {
+			ci, ok := in.(ssa.CallInstruction)
+			return ok && calleeName(ci.Common()) == "sync.WaitGroup."+method && vpath(ci.Common().Args[0]) == "global:log.shutdownWaitGroup"
+		}
+	}
+	n := 0
+	for _, fn := range c.FuncsIn("log") {
+		eachInstr(fn, func(in ssa.Instruction) {
+			g, ok := in.(*ssa.Go)
+			if !ok {
+				return
+			}
+			callee := staticCallee(&g.Call)
+			if callee == nil || !funcHas(callee, 1, isWG("Done")) {
+				return
+			}
+			n++
+			r.Check(MustPrecede(fn, isWG("Add"), g), rule, fmt.Sprintf("%s / wait group armed before %s is launched", fnKey(fn), fnKey(callee)),
+				"shutdownWaitGroup.Add precedes the go statement on every path",
+				"the goroutine that signals shutdownWaitGroup.Done is launched without a preceding Add in the launching goroutine (Add inside the new goroutine races with Wait): Shutdown can return before the writer drained the buffer", c.Pos(g.Pos()))
+		})
+	}
+	if n == 0 {
+		r.Undecided(rule, "log / writer launch", "no goroutine that signals the shutdown wait group is launched")
 	}
 }
